@@ -19,7 +19,7 @@ from common import Model, hx, exc_name, INTERNAL
 
 logging.disable(logging.CRITICAL)
 
-LEAN_TARGETS = ["NfcVerif.Props.C03", "NfcVerif.Props.C03Ctl", "drv_t12", "drv_c03"]
+LEAN_TARGETS = ["NfcVerif.Props.C03", "NfcVerif.Props.C03Ctl", "NfcVerif.Props.C03Sess", "drv_t12", "drv_c03"]
 PARTS = ["t34"] if os.path.exists(os.path.join(os.path.dirname(os.path.abspath(__file__)), "c03_t34.py")) else []
 
 THEOREMS = [
@@ -43,6 +43,13 @@ THEOREMS_CTL = [
     "NfcVerif.C03Ctl.t1_protect_confined",
 ]
 
+THEOREMS_SESS = [
+    "NfcVerif.C03Sess.session_steps_fresh",
+    "NfcVerif.C03Sess.session_write_confined",
+    "NfcVerif.C03Sess.format_then_write_confined",
+    "NfcVerif.C03Sess.topaz_format_then_write_confined",
+    "NfcVerif.C03Sess.format_keep_cache_counterexample",   # what Tag.format's `self._ndef = None` is needed for
+]
 
 FIELD_RUNS = []
 _LAP = [None, []]
@@ -242,8 +249,9 @@ def run(ck):
     lap(ck, "lean")
     ck.lean("NfcVerif.Props.C03", THEOREMS)
     ck.lean("NfcVerif.Props.C03Ctl", THEOREMS_CTL)
+    ck.lean("NfcVerif.Props.C03Sess", THEOREMS_SESS)
     if ck.thorough:
-        ck.leanchecker(["NfcVerif.Props.C03", "NfcVerif.Props.C03Ctl"])
+        ck.leanchecker(["NfcVerif.Props.C03", "NfcVerif.Props.C03Ctl", "NfcVerif.Props.C03Sess"])
     lap(ck, "drivers")
     model = Model("drv_t12")
     model3 = Model("drv_c03")
@@ -986,9 +994,11 @@ def sequences(ck, model3):
             pool = [q for q in must if rng.random() < (0.25 if not vendor_cls else 0.08)] + [rng.choice(every) for _ in range(nseq if not vendor_cls else 6)]
             # the shape of seeded change C03-r3m4 and its neighbours are always present
             pool += [("r", "f", "w"), ("r", "fw", "w"), ("w", "f", "w"), ("r", "fv", "w"), ("f", "w"), ("r", "p", "w"), ("w", "p", "w"), ("r", "f", "r", "w")]
+        if klass == "t1":
+            # the generic Type 1 Tag has no format
+            t1all = all_sequences(["r", "w", "p"], 2, 4)
+            pool = t1all if ck.thorough else [q for q in t1all if len(q) == 2] + [rng.choice(t1all) for _ in range(12)]
         for shape in pool:
-            if klass == "t1" and any(x.startswith("f") for x in shape):
-                continue            # the generic Type 1 Tag has no format
             if vendor_cls and "p" in shape:
                 continue            # the vendor protect() variants are covered one call at a time (protect section)
             made = make(klass)
